@@ -1,4 +1,4 @@
-add("C06", "checks/c06_framing.c", ["default-asan", "default-plain", "dtostre-plain", "c89-plain", "lf-plain", "leptr-asan"], ["default-asan", "default-plain", "dtostre-plain", "c89-plain", "c89-asan", "lf-plain", "cr-plain", "leptr-asan", "leptr-plain", "ndebug-plain", "mcu-plain"],
+add("C06", "checks/c06_framing.c", ["default-asan", "default-plain", "dtostre-plain", "c89-plain", "lf-plain", "leptr-asan", "noinfo-plain", "heap-plain"], ["default-asan", "default-plain", "dtostre-plain", "c89-plain", "c89-asan", "lf-plain", "cr-plain", "leptr-asan", "leptr-plain", "ndebug-plain", "mcu-plain", "noinfo-plain", "heap-plain"],
     "cases = program messages of 1..6 units (queries emitting 0..4 result items of every scalar/text/block type incl. streamed blocks, "
     "succeeding, failing before output, failing after partial output, pushing their own error; commands; undefined headers; syntax-error "
     "units; empty units; unread parameters), each run on a fresh context and again after a random previous message; the captured bytes "
